@@ -1,3 +1,4 @@
 pub mod c01;
 pub mod c07;
 pub mod c08;
+pub mod c09;
